@@ -77,7 +77,7 @@ def main():
         if rc1 == 0:
             print('REJECT: demo passes with the patch applied')
             return 1
-        b = sh([PY, '/tmp/seedkit/check_baseline.py', wt])
+        b = sh([PY, os.path.join(VERIF, 'tools', 'baseline_check.py'), wt])
         if b.returncode != 0:
             print('REJECT: baseline not green with the patch\n' +
                   b.stdout[-1500:])
